@@ -464,8 +464,9 @@ func TestVerif_C43(t *testing.T) {
 		for subset := uint(1); subset < 1<<uint(nblobs); subset++ {
 			ck := fmt.Sprintf("%s|subset=%b", spec.name, subset)
 			if spec.name == "C-big" {
-				// building the big layout costs seconds and ~200 MiB: keep it to a few shards
-				ck = fmt.Sprintf("%s|group=%d", spec.name, subset%4)
+				// building the big layout costs seconds and ~200 MiB: keep it to a few shards in the quick tier;
+				// in the thorough tier the per-subset work dominates, so spread it over all shards
+				ck = fmt.Sprintf("%s|group=%d", spec.name, subset%uint(vh.Pick(r, 4, 16)))
 			}
 			if !r.Case(ck) {
 				continue
